@@ -700,7 +700,7 @@ class Session:
             self.events.append(f"{k} {n} -> {status}")
             self.record({"o": "remove" if k == "remove_ws" else "detach", "u": n}, status)
             if status == "ok":
-                self.check_removed(sub, k)
+                self.check_removed(sub, k, listing=(op["c"] // 8) % 2 == 0)
             return
         if k == "copy":
             e = self.pick(ents, op["a"], lambda x: not_root(x) and not special(x))
@@ -837,8 +837,9 @@ class Session:
             m.append([ga["uid"], gb["uid"]])
         return m
 
-    def check_removed(self, sub, how):
-        """C05 oracle: nothing still yields a removed entity."""
+    def check_removed(self, sub, how, listing=True):
+        """C05 oracle: nothing still yields a removed entity.  `listing=False`: the workspace listings are not read (reading
+        them purges dead references and deletes their nodes, which is itself part of what the histories must vary)."""
         inv = {v: k for k, v in self.uids.map.items()}
         for n in sub:
             u = inv.get(n)
@@ -850,12 +851,16 @@ class Session:
                 break
         # the workspace listings must still work and must not show a removed entity
         try:
+            if not listing:
+                raise StopIteration
             listed = {self.uids.num(x.uid) for lst in (self.ws.groups, self.ws.objects, self.ws.data, self.ws.property_groups)
                       for x in lst}
             if listed & set(sub):
                 self.failures.append((f"workspace listings still show removed entities {sorted(listed & set(sub))} after {how}",
                                       f"C05:{how}:listed-after-removal"))
             del listed
+        except StopIteration:
+            pass
         except Exception as ex:  # noqa: BLE001
             self.failures.append((f"a workspace listing raised {type(ex).__name__}: {str(ex)[:80]} after {how}",
                                   f"C05:{how}:listing-raises:{type(ex).__name__}"))
